@@ -219,74 +219,75 @@ func (c *Ctx) strictGuard(fi *FuncInfo) {
 
 // mergeForms: in UnRoot / removeTip case 2 the merged branch gets pos(l1)+pos(l2) and (inner
 // branches only) support max(..) of the two merged branches.
-func (c *Ctx) mergeForms(fi *FuncInfo, name string, posSupport bool) {
-	info := fi.Pkg.TypesInfo
-	env := c.newLFEnv(info, fi.Decl.Body)
-	lens := c.setterCalls(info, fi.Decl.Body, "length", env.o)
-	sups := c.setterCalls(info, fi.Decl.Body, "support", env.o)
-	nl := 0
-	for _, sc := range lens {
-		p, err := env.fold(sc.arg)
-		if err != nil {
-			continue
-		}
-		if v, isC := p.isConst(); isC && v.Sign() == 0 {
-			continue // SetLength(0.0) elsewhere
-		}
-		nl++
-		key := name + "/" + sc.recv + ".SetLength"
-		ats := p.atoms()
-		good := len(p.norm().terms) == 2 && len(ats) == 2 && strings.HasPrefix(ats[0], "pos(") && strings.HasPrefix(ats[1], "pos(") &&
-			strings.HasSuffix(ats[0], ".length)") && strings.HasSuffix(ats[1], ".length)") && ats[0] != ats[1]
-		for _, t := range p.norm().terms {
-			if t.coef.Cmp(big.NewRat(1, 1)) != 0 {
-				good = false
+func (c *Ctx) mergeForms(fi0 *FuncInfo, name string, posSupport bool) {
+	nl, ns := 0, 0
+	for _, u := range c.lfUnits(fi0) {
+		fi, env := u.fi, u.env
+		info := fi.Pkg.TypesInfo
+		lens := c.setterCalls(info, fi.Decl.Body, "length", env.o)
+		sups := c.setterCalls(info, fi.Decl.Body, "support", env.o)
+		for _, sc := range lens {
+			p, err := env.fold(sc.arg)
+			if err != nil {
+				continue
 			}
-		}
-		c.Check(good, "LF", key, sc.call.Pos(), "merged length = "+p.String(), "merged branch gets length "+p.String()+", property requires pos(l1)+pos(l2) of the two merged branches").Clause = "lengths added (absent counted as 0), support = max"
-		if good {
-			// written iff at least one of the two lengths is present
-			t0 := strings.TrimSuffix(strings.TrimPrefix(ats[0], "pos("), ")")
-			t1 := strings.TrimSuffix(strings.TrimPrefix(ats[1], "pos("), ")")
-			conds, okc := c.pathConds(info, fi.Decl.Body, sc.call, false)
-			var rel []cond
-			for _, cd := range conds {
-				if cd.Expr == nil {
-					continue
-				}
-				k := c.canon(info, cd.Expr, env.o)
-				if strings.Contains(k, "length") || strings.Contains(k, t0) || strings.Contains(k, t1) {
-					rel = append(rel, cd)
+			if v, isC := p.isConst(); isC && v.Sign() == 0 {
+				continue // SetLength(0.0) elsewhere
+			}
+			nl++
+			key := name + "/" + sc.recv + ".SetLength"
+			ats := p.atoms()
+			good := len(p.norm().terms) == 2 && len(ats) == 2 && strings.HasPrefix(ats[0], "pos(") && strings.HasPrefix(ats[1], "pos(") &&
+				strings.HasSuffix(ats[0], ".length)") && strings.HasSuffix(ats[1], ".length)") && ats[0] != ats[1]
+			for _, t := range p.norm().terms {
+				if t.coef.Cmp(big.NewRat(1, 1)) != 0 {
+					good = false
 				}
 			}
-			code := c.condsToBexpr(info, rel, env.o)
-			spec := bOr(bCmp(t0, token.NEQ, "NIL_LENGTH"), bCmp(t1, token.NEQ, "NIL_LENGTH"))
-			eq, wit, _, err := gfEquiv(code, spec)
-			gk := name + "/" + sc.recv + ".SetLength-guard"
-			if !okc || err != nil {
-				c.Undecided("GF", gk, sc.call.Pos(), fmt.Sprintf("guard shape not understood: %v", err))
-			} else {
-				c.Check(eq, "GF", gk, sc.call.Pos(), "merged length written iff one of the two lengths is present", "the merged length is written under "+code.String()+", expected "+spec.String()+" (a sum of two zero-length branches is a present length 0, not an absent one): "+wit).Clause = "the two root branches of a rooted tree counting as one branch"
+			c.Check(good, "LF", key, sc.call.Pos(), "merged length = "+p.String(), "merged branch gets length "+p.String()+", property requires pos(l1)+pos(l2) of the two merged branches").Clause = "lengths added (absent counted as 0), support = max"
+			if good {
+				// written iff at least one of the two lengths is present
+				t0 := strings.TrimSuffix(strings.TrimPrefix(ats[0], "pos("), ")")
+				t1 := strings.TrimSuffix(strings.TrimPrefix(ats[1], "pos("), ")")
+				conds, okc := c.pathConds(info, fi.Decl.Body, sc.call, false)
+				var rel []cond
+				for _, cd := range conds {
+					if cd.Expr == nil {
+						continue
+					}
+					k := c.canon(info, cd.Expr, env.o)
+					if strings.Contains(k, "length") || strings.Contains(k, t0) || strings.Contains(k, t1) {
+						rel = append(rel, cd)
+					}
+				}
+				code := c.condsToBexpr(info, rel, env.o)
+				spec := bOr(bCmp(t0, token.NEQ, "NIL_LENGTH"), bCmp(t1, token.NEQ, "NIL_LENGTH"))
+				eq, wit, _, err := gfEquiv(code, spec)
+				gk := name + "/" + sc.recv + ".SetLength-guard"
+				if !okc || err != nil {
+					c.Undecided("GF", gk, sc.call.Pos(), fmt.Sprintf("guard shape not understood: %v", err))
+				} else {
+					c.Check(eq, "GF", gk, sc.call.Pos(), "merged length written iff one of the two lengths is present", "the merged length is written under "+code.String()+", expected "+spec.String()+" (a sum of two zero-length branches is a present length 0, not an absent one): "+wit).Clause = "the two root branches of a rooted tree counting as one branch"
+				}
 			}
+		}
+		for _, sc := range sups {
+			p, err := env.fold(sc.arg)
+			if err != nil {
+				continue
+			}
+			ns++
+			key := name + "/" + sc.recv + ".SetSupport"
+			a, q, ok := p.singleAtom()
+			good := ok && q.Cmp(big.NewRat(1, 1)) == 0 && strings.HasPrefix(a, "max(") && strings.Count(a, ".support") == 2
+			c.Check(good, "LF", key, sc.call.Pos(), "merged support = "+p.String(), "merged branch gets support "+p.String()+", property requires the max of the two merged supports").Clause = "support = max"
 		}
 	}
 	if nl == 0 {
-		c.Violation("LF", name+"/merged-length", fi.Decl.Pos(), "no SetLength of the merged branch found: the summed length is lost").Clause = "lengths added"
-	}
-	ns := 0
-	for _, sc := range sups {
-		p, err := env.fold(sc.arg)
-		if err != nil {
-			continue
-		}
-		ns++
-		key := name + "/" + sc.recv + ".SetSupport"
-		a, q, ok := p.singleAtom()
-		good := ok && q.Cmp(big.NewRat(1, 1)) == 0 && strings.HasPrefix(a, "max(") && strings.Count(a, ".support") == 2
-		c.Check(good, "LF", key, sc.call.Pos(), "merged support = "+p.String(), "merged branch gets support "+p.String()+", property requires the max of the two merged supports").Clause = "support = max"
+		c.Violation("LF", name+"/merged-length", fi0.Decl.Pos(), "no SetLength of the merged branch found: the summed length is lost").Clause = "lengths added"
 	}
 	if ns == 0 {
-		c.Violation("LF", name+"/merged-support", fi.Decl.Pos(), "no SetSupport of the merged branch found").Clause = "support = max"
+		c.Violation("LF", name+"/merged-support", fi0.Decl.Pos(), "no SetSupport of the merged branch found").Clause = "support = max"
 	}
 }
 
